@@ -152,4 +152,6 @@ def disagreement_is_failing_input(pid, broken):
 
 # C08: Delta::serialize asserts that the bytes written equal the announced length — an abort while a
 # computed reply is being serialized is that assertion (or its like) failing on a concrete message
-PANIC_IS_VIOLATION = {"C04", "C06", "C09", "C15", "C18", "C02", "C03", "C05", "C08"}
+# C07: an abort while a reply is being computed or serialized (the budget bookkeeping of the
+# serializer asserting) means no reply within the limit was produced for that input
+PANIC_IS_VIOLATION = {"C04", "C06", "C09", "C15", "C18", "C02", "C03", "C05", "C08", "C07"}
